@@ -2,6 +2,7 @@ package types
 
 import (
 	"fmt"
+	"sort"
 )
 
 type FunKind int
@@ -15,10 +16,44 @@ const (
 func (f *FunTy) OverLoaded() (key string, fk FunKind) {
 	if slotFree(f.Ty()) {
 		// 单态函数直接根据去除返回值的签名来查找
-		return fmt.Sprintf("λ %s %s", f.Name, Tuple(f.Param)), MonoFun
+		// equal parameter types must give equal keys: object fields in name order
+		return fmt.Sprintf("λ %s %s", f.Name, canonical(Tuple(f.Param))), MonoFun
 	} else {
 		// for 支持 universal quantification
 		// 多态函数根据名称+参数个数来查找
 		return fmt.Sprintf("∀.λ %s %d", f.Name, len(f.Param)), PolyFun
+	}
+}
+
+// canonical returns a type equal to ty whose object fields are listed in name order.
+func canonical(ty *Type) *Type {
+	switch ty.Kind {
+	case KList:
+		return List(canonical(ty.List().El))
+	case KMap:
+		return Map(canonical(ty.Map().Key), canonical(ty.Map().Val))
+	case kTuple:
+		vs := make([]*Type, len(ty.Tuple().Val))
+		for i, v := range ty.Tuple().Val {
+			vs[i] = canonical(v)
+		}
+		return Tuple(vs)
+	case KObj:
+		fs := make([]Field, len(ty.Obj().Fields))
+		for i, f := range ty.Obj().Fields {
+			fs[i] = Field{f.Name, canonical(f.Val)}
+		}
+		sort.SliceStable(fs, func(i, j int) bool { return fs[i].Name < fs[j].Name })
+		return Obj(fs)
+	case KFun:
+		ps := make([]*Type, len(ty.Fun().Param))
+		for i, p := range ty.Fun().Param {
+			ps[i] = canonical(p)
+		}
+		return Fun(ty.Fun().Name, ps, canonical(ty.Fun().Return))
+	case KMaybe:
+		return Maybe(canonical(ty.Maybe().Elem))
+	default:
+		return ty
 	}
 }
